@@ -1,5 +1,121 @@
 ----------------------------- MODULE ParsProps -----------------------------
-EXTENDS Trees
-F_Parsimony(V, args, res) == {}
-F_ParsimonySeq(V, args, res) == {}
+(***************************************************************************)
+(* Layer P for parsimony reconstruction (C12).                              *)
+(*                                                                          *)
+(* Definitions: the minimum number of state changes on a tree whose tips    *)
+(* hold state SETS ("any of these states") is computed by a Sankoff table   *)
+(* (cost[n][s] = minimum number of changes below n when n holds s), built   *)
+(* bottom-up; MPR(n) = states s such that forcing n to s still reaches the  *)
+(* global minimum.  Both are plain dynamic programming over the view of the *)
+(* tree; they know nothing of the up-pass / down-pass heuristics of the     *)
+(* code, whose transcription lives in ParsModel.tla.                        *)
+(***************************************************************************)
+EXTENDS CalcProps, SequencesExt
+
+INF == 100000
+
+\* children before parents: deeper nodes first (distinct keys)
+PostOrder(V) ==
+  LET key(n) == Cardinality(V.anc[n]) * 10000 - n
+  IN  SetToSortSeq(V.nodes, LAMBDA a, b : key(a) > key(b))
+
+KidsFn(V) == [n \in V.nodes |-> Children(V, n)]
+
+RECURSIVE SankoffFold(_, _, _, _, _, _)
+SankoffFold(kids, States, allowed, order, i, tbl) ==
+  IF i > Len(order) THEN tbl
+  ELSE LET n   == order[i]
+           row == TLCEval([s \in States |->
+                     IF s \notin allowed[n] THEN INF
+                     ELSE SumOver(kids[n], LAMBDA c : MinOf({tbl[c][s2] + (IF s2 = s THEN 0 ELSE 1) : s2 \in States}))])
+       IN  SankoffFold(kids, States, allowed, order, i + 1, tbl @@ (n :> row))
+
+\* minimum number of changes when node n may only hold a state of allowed[n]
+MinCostWith(V, kids, order, States, allowed) ==
+  LET t == SankoffFold(kids, States, allowed, order, 1, [x \in {} |-> 0])
+  IN  MinOf({t[V.root][s] : s \in States})
+
+\* tipsets: tip node -> set of states; inner nodes are free
+AllowedOf(V, States, tipsets) == [n \in V.nodes |-> IF n \in V.tips THEN tipsets[n] ELSE States]
+
+MinSteps(V, States, tipsets) ==
+  MinCostWith(V, KidsFn(V), PostOrder(V), States, AllowedOf(V, States, tipsets))
+
+\* total[n][s] = minimum number of changes of the whole tree when n holds s, top-down from the down table:
+\* total[root] = down[root];  total[n][s] = down[n][s] + min over the parent's state sp of
+\*   [sp # s] + total[p][sp] - (what n contributed to down[p][sp])
+RECURSIVE TotalFold(_, _, _, _, _, _)
+TotalFold(V, States, down, order, i, tot) ==
+  IF i < 1 THEN tot
+  ELSE LET n == order[i]
+           row == IF n = V.root THEN down[n]
+                  ELSE LET p == V.par[n]
+                           contrib == TLCEval([sp \in States |-> MinOf({down[n][s2] + (IF s2 = sp THEN 0 ELSE 1) : s2 \in States})])
+                       IN  TLCEval([s \in States |->
+                              IF down[n][s] >= INF THEN INF
+                              ELSE down[n][s] + MinOf({(IF sp = s THEN 0 ELSE 1) + tot[p][sp] - contrib[sp] : sp \in States})])
+       IN  TotalFold(V, States, down, order, i - 1, tot @@ (n :> row))
+
+\* inner node -> set of states it holds in at least one most-parsimonious reconstruction
+MPRSets(V, States, tipsets) ==
+  LET kids  == TLCEval(KidsFn(V))
+      order == TLCEval(PostOrder(V))
+      al    == AllowedOf(V, States, tipsets)
+      down  == TLCEval(SankoffFold(kids, States, al, order, 1, [x \in {} |-> 0]))
+      tot   == TLCEval(TotalFold(V, States, down, order, Len(order), [x \in {} |-> 0]))
+      best  == MinOf({down[V.root][s] : s \in States})
+  IN  [n \in Inner(V) |-> {s \in States : tot[n][s] = best}]
+
+\* the same sets by the definition itself (forcing the node and recomputing): used by the model to
+\* check the two-pass computation above
+MPRSetsByForcing(V, States, tipsets) ==
+  LET kids  == TLCEval(KidsFn(V))
+      order == TLCEval(PostOrder(V))
+      al    == AllowedOf(V, States, tipsets)
+      best  == MinCostWith(V, kids, order, States, al)
+  IN  [n \in Inner(V) |-> {s \in States : s \in al[n] /\ MinCostWith(V, kids, order, States, [al EXCEPT ![n] = {s}]) = best}]
+
+\* number of changes of a full assignment asg : node -> state
+CostOf(V, asg) == Cardinality({n \in NonRoot(V) : asg[n] # asg[V.par[n]]})
+
+-----------------------------------------------------------------------------
+(* Judgement of one reconstruction.  st : node -> reported set of states.   *)
+
+F_ParsCore(V, States, tipsets, algo, steps, st, judgeTips) ==
+  LET best == MinSteps(V, States, tipsets)
+      mpr  == TLCEval(MPRSets(V, States, tipsets))
+  IN  Fail("StepsAreMinimal", steps = best)
+      \cup (IF judgeTips THEN Fail("TipStatesUnaltered", \A t \in V.tips : st[t] = tipsets[t]) ELSE {})
+      \cup Fail("ReportedStatesAreMostParsimonious", \A n \in Inner(V) : st[n] # {} /\ st[n] \subseteq mpr[n])
+      \cup (IF algo = "DOWNPASS" THEN Fail("DownpassReportsAllMPRStates", \A n \in Inner(V) : st[n] = mpr[n]) ELSE {})
+      \cup Fail("UnambiguousOutputIsOptimal",
+                (\A n \in V.nodes : Cardinality(st[n]) = 1) =>
+                   CostOf(V, [n \in V.nodes |-> CHOOSE s \in st[n] : TRUE]) = best)
+
+\* args.tips : sequence of <<name, state>>; res.states : node id -> sequence of states; res.steps
+F_Parsimony(V, args, res) ==
+  LET States  == SeqRange(args.alphabet)
+      byname  == [i \in 1..Len(args.tips) |-> args.tips[i][1]]
+      tipsets == [t \in V.tips |-> {args.tips[i][2] : i \in {j \in 1..Len(args.tips) : byname[j] = V.nm[t]}}]
+      st      == [n \in V.nodes |-> SeqRange(res.states[n])]
+  IN  F_ParsCore(V, States, tipsets, args.algo, res.steps, st, TRUE)
+
+\* sequence variant: args.sets[t][j] = allowed states of tip (by rank in args.names) at site j;
+\* res.steps[j]; res.states[n][j] = reported states of node n at site j; res.single[j] = what the
+\* single-character reconstruction reported for site j (only logged for unambiguous alignments)
+F_ParsimonySeq(V, args, res) ==
+  LET States == {"A", "C", "G", "T"}
+      idx(t) == CHOOSE i \in 1..Len(args.names) : args.names[i] = V.nm[t]
+      m      == args.nsites
+  IN  UNION {
+        LET tipsets == [t \in V.tips |-> SeqRange(args.sets[idx(t)][j])]
+            st      == [n \in V.nodes |-> SeqRange(res.states[n][j])]
+        IN  IF args.ambiguous
+            THEN Fail("SiteStepsAreMinimal", res.steps[j] = MinSteps(V, States, tipsets))
+            ELSE F_ParsCore(V, States, tipsets, args.algo, res.steps[j], st, TRUE)
+                 \cup Fail("SequenceAgreesWithSingleCharacter",
+                           /\ res.single[j].steps = res.steps[j]
+                           /\ \A n \in V.nodes : SeqRange(res.single[j].states[n]) = st[n])
+        : j \in 1..m}
+
 =============================================================================
